@@ -122,7 +122,24 @@ func workloadDocs(w *Workload) []Doc {
 		case KRC:
 			api = "v1"
 		}
-		owner := fmt.Sprintf("  ownerReferences:\n  - {apiVersion: %s, kind: %s, name: %s, uid: \"u-%s\", controller: true}\n", q(api), ok, q(w.Name), w.Name)
+		ctrl := fmt.Sprintf("  - {apiVersion: %s, kind: %s, name: %s, uid: \"u-%s\", controller: true}\n", q(api), ok, q(w.Name), w.Name)
+		extraFalse := "  - {apiVersion: \"v1\", kind: ConfigMap, name: \"some-other-owner\", uid: \"u-other\", controller: false}\n"
+		extraOmitted := "  - {apiVersion: \"v1\", kind: ConfigMap, name: \"some-other-owner\", uid: \"u-other\"}\n"
+		owner := "  ownerReferences:\n"
+		switch w.ExtraOwners {
+		case "before-false":
+			owner += extraFalse + ctrl
+		case "after-false":
+			owner += ctrl + extraFalse
+		case "before-omitted":
+			owner += extraOmitted + ctrl
+		case "after-omitted":
+			owner += ctrl + extraOmitted
+		case "both-false":
+			owner += extraFalse + ctrl + extraFalse
+		default:
+			owner += ctrl
+		}
 		docs := []Doc{}
 		for i := 0; i < n; i++ {
 			pn := fmt.Sprintf("%s-x%d", w.Name, i)
